@@ -2,16 +2,16 @@
 (module-uses consts height spanof exprwf perr shape)
 
 ; ---- expressions as the parser delivers them: well-formed, span-safe, with a valid span inside the source
-(define-fun-rec exprOK ((s Str) (x Node)) Bool (and (exprWF x) (spanSafe x) (spanIn s x) (shapeOK x) (walkWF x)))
+(define-fun-rec exprOK ((s Str) (x Node)) Bool (and (exprWF x) (spanSafe x) (spanIn s x) (shapeOK x) (walkWF x) (bracketsOK x)))
 (define-fun-rec exprsOK ((s Str) (l Seq_Node) (n Int)) Bool
   (ite (<= n 0) true (and (exprsOK s l (- n 1)) (exprOK s (Seq_Node.nth l (- n 1))))))
-(lemma exprsOK-parts :induction n (forall ((s Str) (l Seq_Node) (n Int)) (! (=> (exprsOK s l n) (and (exprWFL l n) (spanSafeList l n) (spansInL (Str.len s) l n) (shapeOKList l n) (walkWFL l n))) :pattern ((exprsOK s l n)))))
+(lemma exprsOK-parts :induction n (forall ((s Str) (l Seq_Node) (n Int)) (! (=> (exprsOK s l n) (and (exprWFL l n) (spanSafeList l n) (spansInL (Str.len s) l n) (shapeOKList l n) (walkWFL l n) (bracketsOKList l n))) :pattern ((exprsOK s l n)))))
 (lemma exprsOK-snoc :induction n (forall ((s Str) (l Seq_Node) (x Node) (n Int)) (! (=> (<= n (Seq_Node.len l)) (= (exprsOK s (Seq_Node.snoc l x) n) (exprsOK s l n))) :pattern ((exprsOK s (Seq_Node.snoc l x) n)))))
 (lemma exprsOK-nth :induction n (forall ((s Str) (l Seq_Node) (n Int) (i Int)) (! (=> (and (exprsOK s l n) (<= 0 i) (< i n)) (exprOK s (Seq_Node.nth l i))) :pattern ((exprsOK s l n) (Seq_Node.nth l i)))))
 (define-fun identOK ((s Str) (id Node)) Bool (and ((_ is mk_Ident) id) (spanValid (Ident.NameSpan id)) (<= (Span.End (Ident.NameSpan id)) (Str.len s))))
 (define-fun-rec identsOK ((s Str) (l Seq_Node) (n Int)) Bool
   (ite (<= n 0) true (and (identsOK s l (- n 1)) (identOK s (Seq_Node.nth l (- n 1))))))
-(lemma identsOK-parts :induction n (forall ((s Str) (l Seq_Node) (n Int)) (! (=> (identsOK s l n) (and (identsWFL l n) (spanSafeList l n) (spansInL (Str.len s) l n) (shapeOKList l n) (walkWFL l n))) :pattern ((identsOK s l n)))))
+(lemma identsOK-parts :induction n (forall ((s Str) (l Seq_Node) (n Int)) (! (=> (identsOK s l n) (and (identsWFL l n) (spanSafeList l n) (spansInL (Str.len s) l n) (shapeOKList l n) (walkWFL l n) (bracketsOKList l n))) :pattern ((identsOK s l n)))))
 (lemma identsOK-snoc :induction n (forall ((s Str) (l Seq_Node) (x Node) (n Int)) (! (=> (<= n (Seq_Node.len l)) (= (identsOK s (Seq_Node.snoc l x) n) (identsOK s l n))) :pattern ((identsOK s (Seq_Node.snoc l x) n)))))
 (lemma identsOK-first (forall ((s Str) (l Seq_Node) (n Int)) (! (=> (and (identsOK s l n) (> n 0)) (spanValid (SpanOfList l n))) :pattern ((identsOK s l n) (SpanOfList l n)))))
 
